@@ -1,6 +1,7 @@
 package hc09
 
 import (
+	"sort"
 	"sync"
 
 	"github.com/attestantio/dirk/util"
@@ -18,10 +19,18 @@ func l3Scatter(maxN, maxP int) {
 	P := vsym.IntRange("P", 1, maxP)
 	vsym.SetGOMAXPROCS(P)
 	var seen []extent
+	var mu sync.Mutex
 	res, err := util.Scatter(n, func(offset int, entries int, _ *sync.RWMutex) (any, error) {
+		mu.Lock()
 		seen = append(seen, extent{offset, entries})
+		mu.Unlock()
 		return nil, nil
 	})
+	if !vsym.Symbolic() {
+		// natively the workers run in any order; the executor starts them in creation order
+		sort.Slice(seen, func(a, b int) bool { return seen[a].offset < seen[b].offset })
+		sort.Slice(res, func(a, b int) bool { return res[a] != nil && res[b] != nil && res[a].Offset < res[b].Offset })
+	}
 	vsym.Assert("P0-no-error", err == nil)
 	w := len(seen)
 	vsym.Out("workers", w)
